@@ -240,8 +240,20 @@ def _apply_len(s, lens):
     return s
 
 
-def build(spec):
-    """Build the real schema through the public DSL only."""
+def build(spec, hook=None, _ctr=None):
+    """Build the real schema through the public DSL only.  hook(schema, i) may replace the schema of the
+    i-th node (pre-order numbering of the spec tree) - used to wrap nodes into custom types (C16)."""
+    if _ctr is None:
+        _ctr = [0]
+    me = _ctr[0]
+    _ctr[0] += 1
+    s = _build(spec, hook, _ctr)
+    if hook is not None:
+        s = hook(s, me)
+    return s
+
+
+def _build(spec, hook, _ctr):
     k = spec[0]
     if k == "none":
         return schema.none
@@ -290,24 +302,24 @@ def build(spec):
     if k == "list":
         return _apply_len(schema.list, spec[2])
     if k == "list_t":
-        return _apply_len(schema.list(build(spec[1])), spec[2])
+        return _apply_len(schema.list(build(spec[1], hook, _ctr)), spec[2])
     if k == "list_e":
-        return _apply_len(schema.list([(... if e is ... else build(e)) for e in spec[1]]), spec[2])
+        return _apply_len(schema.list([(... if e is ... else build(e, hook, _ctr)) for e in spec[1]]), spec[2])
     if k == "dict":
         if spec[1] is None:
             return schema.dict
         keys = {}
         for key, opt, sub in spec[1]:
-            keys[optional(key) if opt else key] = build(sub)
+            keys[optional(key) if opt else key] = build(sub, hook, _ctr)
         if spec[2]:
             keys[...] = ...
         return schema.dict(keys)
     if k == "any":
         if spec[1] is None:
             return schema.any
-        return schema.any(*[build(a) for a in spec[1]])
+        return schema.any(*[build(a, hook, _ctr) for a in spec[1]])
     if k == "alias":
-        return schema.alias(spec[1], build(spec[2]))
+        return schema.alias(spec[1], build(spec[2], hook, _ctr))
     raise AssertionError("bad spec %r" % (k,))
 
 
@@ -1254,4 +1266,106 @@ def eq_value_problem(a, v):
     va = ok_validate(a, v)
     if (a == v) != va or (a != v) != (not va):
         return "schema == value disagrees with validate"
+    return ""
+
+
+# --------------------------------------------------------------------------- C16: forwarding custom type
+
+from d42.custom_type import CustomSchema  # noqa: E402
+from d42.declaration import Props as _Props  # noqa: E402
+
+
+class WrapProps(_Props):
+    @property
+    def inner(self):
+        return self.get("inner")
+
+
+class Wrap(CustomSchema[WrapProps]):
+    """A user-defined type that forwards every hook to a built-in schema."""
+
+    @classmethod
+    def of(cls, inner):
+        return cls(WrapProps().update(inner=inner))
+
+    def __validate__(self, visitor, *, value=Nil, path=Nil, **kwargs):
+        return self.props.inner.__accept__(visitor, value=value, path=path, **kwargs)
+
+    def __generate__(self, visitor, **kwargs):
+        return self.props.inner.__accept__(visitor, **kwargs)
+
+    def __represent__(self, visitor, *, indent=0, **kwargs):
+        return self.props.inner.__accept__(visitor, indent=indent, **kwargs)
+
+    def __substitute__(self, visitor, *, value=Nil, **kwargs):
+        return self.__class__(self.props.update(inner=self.props.inner.__accept__(visitor, value=value, **kwargs)))
+
+
+def wrap_hook(flags):
+    def hook(s, i):
+        if i < len(flags) and flags[i]:
+            return Wrap.of(s)
+        return s
+    return hook
+
+
+def err_fingerprint(res):
+    out = []
+    for e in res.get_errors():
+        extra = []
+        for k in sorted(e.__dict__):
+            if k in ("path", "actual_value", "expected_schemas"):
+                continue
+            extra.append((k, id(e.__dict__[k]) if not isinstance(e.__dict__[k], (int, str, type)) else e.__dict__[k]))
+        out.append((type(e).__name__, tuple(path_items(e.path)), id(e.actual_value), tuple(extra)))
+    return out
+
+
+def custom_problem(spec, flags, val, w):
+    """'' when the tree with forwarding custom types at the flagged nodes validates, prints and substitutes
+    exactly like the plain tree (C16)."""
+    T = build(spec)
+    Tw = build(spec, wrap_hook(flags))
+    if err_fingerprint(validate(T, val)) != err_fingerprint(validate(Tw, val)):
+        return "validation errors differ"
+    if represent(T) != represent(Tw):
+        return "printed form differs"
+    try:
+        R = substitute(T, val)
+        r1 = True
+    except SubstitutionError:
+        r1 = False
+    try:
+        Rw = substitute(Tw, val)
+        r2 = True
+    except SubstitutionError:
+        r2 = False
+    if r1 != r2:
+        return "substitution succeeds for one and fails for the other"
+    if r1:
+        if represent(R) != represent(Rw):
+            return "substitution results print differently"
+        if ok_validate(R, w) != ok_validate(Rw, w):
+            return "substitution results accept different values"
+    return ""
+
+
+def custom_gen_problem(spec, flags, ints, chars):
+    T = build(spec)
+    Tw = build(spec, wrap_hook(flags))
+    g1 = g2 = e1 = e2 = None
+    with gen_env(ints, chars, ()) as t:
+        try:
+            g1 = fake(T)
+        except (ValueError, IndexError) as ex:      # unsatisfiable schema: the generator may refuse
+            e1 = type(ex)
+    with gen_env(ints, chars, ()) as t:
+        try:
+            g2 = fake(Tw)
+        except (ValueError, IndexError) as ex:
+            e2 = type(ex)
+    if e1 is not e2:
+        return "generation raises for one and not for the other"
+    if e1 is None and ok_validate(T, g1) and not ok_validate(T, g2):
+        return "value generated through the custom type does not conform"
     return ""
